@@ -547,9 +547,11 @@ func genC11(g *G) {
 
 func genC03(g *G) { emitGenOps(g, g.N(24, 400), g.N(4, 12), 0, "C03") }
 func genC10(g *G) { emitGenOps(g, g.N(24, 400), g.N(10, 40), g.N(40, 400), "C10") }
+func genC19(g *G) { emitGenOps(g, g.N(24, 400), g.N(12, 40), 0, "C19") }
 
 func init() {
 	RegGen("C03", genC03)
 	RegGen("C10", genC10)
 	RegGen("C11", genC11)
+	RegGen("C19", genC19)
 }
